@@ -65,9 +65,8 @@ theorem static_initialised_once (tk : Tokenizer S) (ext : Ext) (s : Session) (c 
     not depend on the iteration order of its hash maps (C14 `export_order_independent`). -/
 theorem export_deterministic (d : Definition) (hc : Spec.Canonical d)
     (pv pv' : List (Id × Bytes) → List (Id × Bytes)) (hpv : ∀ l, (pv l).Perm l) (hpv' : ∀ l, (pv' l).Perm l)
-    (pvs pvs' : List ((Id × Bytes) × UInt32) → List ((Id × Bytes) × UInt32)) (hpvs : ∀ l, (pvs l).Perm l) (hpvs' : ∀ l, (pvs' l).Perm l)
-    (ps ps' : List SpecialDef → List SpecialDef) (hps : ∀ l, (ps l).Perm l) (hps' : ∀ l, (ps' l).Perm l) :
-    exportDefinition d pv pvs ps = exportDefinition d pv' pvs' ps' :=
-  C14.export_order_independent d hc pv pv' hpv hpv' pvs pvs' hpvs hpvs' ps ps' hps hps'
+    (pvs pvs' : List ((Id × Bytes) × UInt32) → List ((Id × Bytes) × UInt32)) (hpvs : ∀ l, (pvs l).Perm l) (hpvs' : ∀ l, (pvs' l).Perm l) :
+    exportDefinition d pv pvs = exportDefinition d pv' pvs' :=
+  C14.export_order_independent d hc pv pv' hpv hpv' pvs pvs' hpvs hpvs'
 
 end Kitoken.C19
